@@ -324,6 +324,7 @@ pub fn zerortt(trace: &[Value]) -> Vec<Value> {
                     out.push(json!({"ev":"CMax","who":who_of(n),"kind":"fuzzy","id":-1,"v":0,"t":e["t"]}));
                 }
             }
+            "StepBound" if e["what"] == "max_trace" => {}
             "Panic" | "StepBound" => {
                 out.push(json!({"ev":"Abnormal","what":ev}));
             }
